@@ -145,6 +145,9 @@ def _load_from_file_system(hashed_grammar, path, p_time, cache_path=None):
                 module_cache_item = pickle.load(f)
             finally:
                 gc.enable()
+        if not isinstance(module_cache_item, _NodeCacheItem):
+            # A damaged or foreign file can be a valid pickle of something else.
+            return None
     except Exception:
         # A missing, unreadable, truncated or otherwise corrupt cache file is
         # simply a cache miss (unpickling garbage can raise nearly anything).
